@@ -27,9 +27,10 @@ CFG = {
     "quick": dict(mc=[("MC_Linepart.cfg", "full"), ("MC_Linepart_c.cfg", "chunked"), ("MC_Linepart_2.cfg", "two dimensions")],
                   gen=[("Gen_Linepart.cfg", 65535), ("Gen_Linepart_c.cfg", 3), ("Gen_Linepart_k.cfg", 65535), ("Gen_Linepart_2.cfg", 65535)],
                   nrand=400, nlong=10),
-    "thorough": dict(mc=[("MC_Linepart_t.cfg", "full"), ("MC_Linepart_c_t.cfg", "chunked"), ("MC_Linepart_2_t.cfg", "two dimensions")],
+    "thorough": dict(mc=[("MC_Linepart_t.cfg", "full"), ("MC_Linepart_r_t.cfg", "degenerate and inverted ranges"),
+                         ("MC_Linepart_c_t.cfg", "chunked"), ("MC_Linepart_2_t.cfg", "two dimensions")],
                      gen=[("Gen_Linepart_t.cfg", 65535), ("Gen_Linepart_c_t.cfg", 3), ("Gen_Linepart_k_t.cfg", 65535), ("Gen_Linepart_2_t.cfg", 65535)],
-                     nrand=4000, nlong=60),
+                     nrand=3000, nlong=40),
 }
 DRV_LIMIT = 3
 CXX_ACTIONS = ("apply", "apply2", "poly")
